@@ -52,23 +52,28 @@ def run(res, tier, replay):
             for start in (paths if isset else paths[:1]):
                 if isset and start != paths[0] and rng.random() < 0.5 and tier == "quick": continue
                 detail = "cabinet files: %s\nstart: %s  pattern: %s\nmembers: %s" % ([os.path.basename(x) + "=" + open(x, "rb").read().hex()[:64] + "..." for x in paths], os.path.basename(start), pat, [(m.name, m.length, m.attribs) for m in members])
+                # the -d option in its spellings (none, plain, with a trailing slash): it only prefixes the names shown; the members selected,
+                # their order and their bytes do not depend on it
+                dvar = rng.choice([None, os.path.join(work, "dd"), os.path.join(work, "dd") + "/", "rel/"])
+                dopt = ["-d", dvar] if dvar else []; pre = (dvar + "/") if dvar else ""
+                detail += "\n-d: %s" % dvar
                 # -l
-                r = subprocess.run([exe, "-l"] + fopt + [start], capture_output=True, env=env, timeout=60); nruns += 1
+                r = subprocess.run([exe, "-l"] + dopt + fopt + [start], capture_output=True, env=env, timeout=60, cwd=work); nruns += 1
                 rows = re.findall(r"^\s*(\d+) \| (\d\d)\.(\d\d)\.(\d{4}) (\d\d):(\d\d):(\d\d) \| (.*)$", r.stdout.decode("latin1"), flags=re.M)
-                want = [(str(m.length), "%02d" % dts[m.name][2], "%02d" % dts[m.name][1], "%04d" % dts[m.name][0], "%02d" % dts[m.name][3], "%02d" % dts[m.name][4], "%02d" % dts[m.name][5], m.name.decode()) for m in sel]
+                want = [(str(m.length), "%02d" % dts[m.name][2], "%02d" % dts[m.name][1], "%04d" % dts[m.name][0], "%02d" % dts[m.name][3], "%02d" % dts[m.name][4], "%02d" % dts[m.name][5], pre + m.name.decode()) for m in sel]
                 if rows != want or (r.returncode != 0): bad("-l from %s lists %s, expected %s (exit %d)" % (os.path.basename(start), rows[:3], want[:3], r.returncode), detail, "c17:list")
                 # -t
-                r = subprocess.run([exe, "-t"] + fopt + [start], capture_output=True, env=env, timeout=120); nruns += 1
+                r = subprocess.run([exe, "-t"] + dopt + fopt + [start], capture_output=True, env=env, timeout=120, cwd=work); nruns += 1
                 got = re.findall(r"^  (\S+)  OK\s+([0-9a-f]{32})$", r.stdout.decode("latin1"), flags=re.M)
-                want = [(m.name.decode(), hashlib.md5(m.data).hexdigest()) for m in sel]
+                want = [(pre + m.name.decode(), hashlib.md5(m.data).hexdigest()) for m in sel]
                 if got != want or r.returncode != 0: bad("-t from %s reports %s, expected %s (exit %d)" % (os.path.basename(start), got[:2], want[:2], r.returncode), detail, "c17:test")
                 if any(os.path.exists(os.path.join(work, m.name.decode())) for m in sel): bad("-t wrote a file", detail, "c17:test-writes")
                 # -p
-                r = subprocess.run([exe, "-p", "-q"] + fopt + [start], capture_output=True, env=env, timeout=120); nruns += 1
+                r = subprocess.run([exe, "-p", "-q"] + dopt + fopt + [start], capture_output=True, env=env, timeout=120, cwd=work); nruns += 1
                 if r.stdout != b"".join(m.data for m in sel) or r.returncode != 0: bad("-p from %s wrote %d bytes, expected %d (exit %d)" % (os.path.basename(start), len(r.stdout), sum(len(m.data) for m in sel), r.returncode), detail, "c17:pipe")
                 # extract
                 um = rng.choice([0o022, 0o027, 0o077]); dest = os.path.join(work, "d%d" % nruns)
-                r = subprocess.run("umask %o && exec %s -q %s -d %s %s" % (um, exe, " ".join("'%s'" % x for x in fopt), dest, start), shell=True, capture_output=True, env=env, timeout=120); nruns += 1
+                r = subprocess.run("umask %o && exec %s -q %s -d %s %s" % (um, exe, " ".join("'%s'" % x for x in fopt), dest + rng.choice(["", "/"]), start), shell=True, capture_output=True, env=env, timeout=120); nruns += 1
                 created = sorted(os.listdir(dest)) if os.path.isdir(dest) else []
                 if created != sorted(m.name.decode() for m in sel) or r.returncode != 0: bad("extract from %s created %s, expected %s (exit %d)" % (os.path.basename(start), created[:4], sorted(m.name.decode() for m in sel)[:4], r.returncode), detail, "c17:extract-set")
                 else:
